@@ -1,6 +1,7 @@
 package main
 
 import (
+	"math"
 	"fmt"
 	"go/types"
 	"strings"
@@ -188,7 +189,18 @@ func (e *Engine) builtin(st *State, fr *Frame, b *ssa.Builtin, call *ssa.Call, a
 				}
 			case FloatV:
 				y := a.(FloatV)
-				if x.Sym == nil && y.Sym == nil {
+				if x.FP != nil || y.FP != nil {
+					// Go's min/max on float64: NaN if either is NaN, -0 < +0
+					p, q := x.asFP(), y.asFP()
+					nan := Or(FIsNaN(p), FIsNaN(q))
+					var pick *Term
+					if isMin {
+						pick = Ite(FLt(p, q), p, Ite(FLt(q, p), q, Ite(FIsNeg(p), p, q)))
+					} else {
+						pick = Ite(FLt(p, q), q, Ite(FLt(q, p), p, Ite(FIsNeg(p), q, p)))
+					}
+					r = FloatV{FP: Ite(nan, FPC(math.NaN()), pick)}
+				} else if x.Sym == nil && y.Sym == nil {
 					if x.F != x.F || y.F != y.F {
 						panic(unsupported("min/max with NaN"))
 					}
@@ -323,7 +335,7 @@ func writeKey(sb *strings.Builder, v Value) bool {
 		}
 		fmt.Fprintf(sb, "s%d:%s;", len(s), s)
 	case FloatV:
-		if x.Sym != nil {
+		if x.Sym != nil || x.FP != nil {
 			return false
 		}
 		fmt.Fprintf(sb, "f%v;", x.F)
